@@ -170,31 +170,32 @@ def random_cases(rng, n, tier):
 
 # ------------------------------------------------------------------------------------------------ level B
 def model_check(chk, quick):
-    """exhaustive check of the implementation-shaped model against A's coherence conditions; returns finished behaviours"""
-    cfgs = ["Collections.quick.cfg"] if quick else ["Collections.quick.cfg", "Collections.thorough.cfg"]
-    behs = []
-    for cfg in cfgs:
-        if not os.path.exists(os.path.join(hg.SPEC, "cfg", cfg)):
-            continue
-        res = hg.tlc("MCCollections", cfg, timeout=3600)
-        if res.violation:
-            raise hg.MachineryError("Collections.tla violates its invariants (spec defect):\n" + res.violation)
-        chk.add_tlc(res, cfg)
-        chk.coverage["exhaustive"] = True
-        behs += hg.printed_json(res, "COLL")
-    return behs
-
-
-def simulate(chk, quick):
-    cfg = "Collections.sim.cfg"
-    if not os.path.exists(os.path.join(hg.SPEC, "cfg", cfg)):
-        return []
-    n = 150 if quick else 3000
-    res = hg.tlc("MCCollections", cfg, workers=8, simulate="num=%d" % n, depth=400, timeout=900, extra=["-seed", str(hg.seed())])
-    if res.violation:
-        raise hg.MachineryError("Collections.tla violates its invariants in simulation:\n" + res.violation)
-    chk.add_tlc(res, "Collections-simulation")
-    return hg.printed_json(res, "COLL")
+    """Collections.tla: (a) exhaustive check of the implementation-shaped model against A's coherence conditions on the bounded
+    instance (every mutation script of the configured size, five shapes); (b) the smallest instance with every behaviour printed;
+    (c) the as-is resurrection branch (FixF2 = FALSE), where TLC must find the design-level counterexample of finding F2;
+    (d) random simulation of a larger instance.  The four TLC runs are independent and run side by side."""
+    from concurrent.futures import ThreadPoolExecutor
+    nsim = 60 if quick else 3000
+    jobs = {
+        "exhaustive": lambda: hg.tlc("MCCollections", "Collections.quick.cfg" if quick else "Collections.thorough.cfg", workers=max(2, hg.NCPU - 5),
+                                     timeout=3600, metatag="coll-a"),
+        "behaviours": lambda: hg.tlc("MCCollections", "Collections.emit.cfg", workers=2, timeout=1200, metatag="coll-b"),
+        "asis": lambda: hg.tlc("MCCollections", "Collections.asis.cfg", workers=1, timeout=1200, metatag="coll-c"),
+        "simulation": lambda: hg.tlc("MCCollections", "Collections.sim.cfg", workers=2, simulate="num=%d" % nsim, depth=400, timeout=900,
+                                     extra=["-seed", str(hg.seed())], metatag="coll-d"),
+    }
+    with ThreadPoolExecutor(max_workers=4) as ex:
+        futs = {k: ex.submit(f) for k, f in jobs.items()}
+        res = {k: f.result() for k, f in futs.items()}
+    for k in ("exhaustive", "behaviours", "simulation"):
+        if res[k].violation:
+            raise hg.MachineryError("Collections.tla violates its invariants (%s; spec defect):\n%s" % (k, res[k].violation))
+        chk.add_tlc(res[k], "Collections-" + k)
+    chk.coverage["exhaustive"] = True
+    v = res["asis"].violation
+    chk.notes["design_counterexample_F2"] = ("found: ValueIsPrevPlusDelta is violated by the as-is resurrection branch" if v and "ValueIsPrevPlusDelta" in v
+                                             else "NOT found - the as-is model no longer shows finding F2 (update Collections.tla FixF2)")
+    return hg.printed_json(res["behaviours"], "COLL"), hg.printed_json(res["simulation"], "COLL")
 
 
 def behaviour_case(k, b, origin):
@@ -326,12 +327,15 @@ def main():
     quick = chk.tier == "quick"
     rng = random.Random(hg.seed() * 977 + int(pid[1:]))
     # 1. level B against level A's coherence conditions, exhaustively; its behaviours become scenarios
-    behs = model_check(chk, quick)
-    sims = simulate(chk, quick)
+    behs, sims = model_check(chk, quick)
+    chk.notes["model_behaviours"] = {"exhaustive_instance": len(behs), "simulated": len(sims)}
+    if quick:      # deterministic samples; thorough runs all of the small instance and all simulated behaviours
+        behs = [behs[i] for i in sorted(rng.sample(range(len(behs)), min(len(behs), 250)))]
+        sims = [sims[i] for i in sorted(rng.sample(range(len(sims)), min(len(sims), 60)))]
     cases = [behaviour_case(k, b, "mc") for k, b in enumerate(behs)] + [behaviour_case(k, b, "sim") for k, b in enumerate(sims)]
-    chk.notes["model_behaviours"] = {"exhaustive": len(behs), "simulated": len(sims)}
+    chk.notes["model_behaviours"]["executed"] = len(cases)
     # 2. op-dense random scripts over the whole shape menu (nested shapes, invalidations, slot growth / reuse in thorough)
-    cases += random_cases(rng, 450 if quick else 6000, chk.tier)
+    cases += random_cases(rng, 270 if quick else 6000, chk.tier)
     if pid == "C20":
         cases = [c for c in cases if c.rr and not c.has_inv]
     traces = hg.run_driver("coll", [c.scn for c in cases])
